@@ -67,26 +67,29 @@ Proof.
 Qed.
 
 (* ---- the state in which an event of module m at instant t begins ---- *)
-Record PreEv (ts0 : list task) (later : nat -> Prop) (w : world) (t m : N) (spawn : list nat) (fire : bool) : Prop := {
+Record PreEv (A0 A : N -> arrs) (ts0 : list task) (later : nat -> Prop) (w : world) (t m : N) (spawn : list nat) (fire : bool) : Prop := {
   pe_si : SI (w_fes w);
   pe_tcur : s_tcur (w_fes w) = t;
   pe_now : w_now w <= t;
   pe_min : forall e, In e (spend (w_fes w)) -> t <= etime e;
-  pe_mail : w_mail w = [];
-  pe_base : Base ts0 (w_tasks w) (w_owner w) (w_nid w);
+  pe_inert : inert (w_mail w);
+  pe_arr : Arr A (w_now w) (w_tasks w) (w_mail w);
+  pe_norecv : forall k tk ch, nth_error (w_tasks w) k = Some tk -> waits_on (t_cur tk) = Some ch -> chan (t_mod tk) ch (w_mail w) = [];
+  pe_base : Base A0 A ts0 (w_tasks w) (w_owner w) (w_nid w);
   pe_m : m < 2;
   pe_drv : forall m', m' < 2 -> exists l, l <= w_now w /\ Inv l (drv_of w m') /\
            Permutation ((if fire && (m' =? m) then [t] else []) ++ wakes m' (spend (w_fes w))) (scheduled (drv_of w m')) /\
-           Tie (w_tasks w) l [] m' (drv_of w m') /\ Extra l (drv_of w m');
+           Tie (w_tasks w) l [] m' (drv_of w m') /\ Snap l (drv_of w m');
   pe_spawn_nd : NoDup spawn;
   pe_spawn : forall k, In k spawn -> exists tk, nth_error (w_tasks w) k = Some tk /\ unspawned tk /\ t_mod tk = m /\ t_start tk = t;
   pe_spawn_msg : forall k e, In k spawn -> In e (spend (w_fes w)) -> epay e <> msg_of k;
   pe_later_spawn : forall k, later k -> ~ In k spawn;
+  pe_later_start : forall k tk, later k -> nth_error (w_tasks w) k = Some tk -> t <= t_start tk;
   pe_msgs : Msgs (w_tasks w) (spend (w_fes w)) (fun k => later k \/ In k spawn) }.
 
 Section Event.
-  Variables (ts0 : list task) (later : nat -> Prop) (w : world) (t m : N) (spawn : list nat) (fire : bool).
-  Hypothesis HP : PreEv ts0 later w t m spawn fire.
+  Variables (A0 A : N -> arrs) (ts0 : list task) (later : nat -> Prop) (w : world) (t m : N) (spawn : list nat) (fire : bool).
+  Hypothesis HP : PreEv A0 A ts0 later w t m spawn fire.
 
   Let dr0 := if fire then sched_fire t (drv_of w m) else drv_of w m.
 
@@ -94,18 +97,21 @@ Section Event.
   Proof. unfold dr0. destruct fire; reflexivity. Qed.
 
   (* the scheduled wake-ups of module m lie at or after t; the fired one is the earliest *)
-  Lemma ev_sched_ge x : In x (scheduled (drv_of w m)) -> t <= x.
+  Lemma ev_sched_ge' m' x : m' < 2 -> In x (scheduled (drv_of w m')) -> t <= x.
   Proof.
-    intros Hx. destruct (pe_drv _ _ _ _ _ _ _ HP m (pe_m _ _ _ _ _ _ _ HP)) as (l & _ & _ & Hperm & _ & _).
+    intros Hm' Hx. destruct (pe_drv _ _ _ _ _ _ _ _ _ HP m' Hm') as (l & _ & _ & Hperm & _ & _).
     apply Permutation_sym in Hperm. pose proof (Permutation_in _ Hperm Hx) as H. apply in_app_or in H.
     destruct H as [H|H].
-    - destruct (fire && (m =? m)); [destruct H as [<-|[]]; lia|contradiction].
-    - apply wakes_in in H. destruct H as (e & He & _ & <-). exact (pe_min _ _ _ _ _ _ _ HP e He).
+    - destruct (fire && (m' =? m)); [destruct H as [<-|[]]; lia|contradiction].
+    - apply wakes_in in H. destruct H as (e & He & _ & <-). exact (pe_min _ _ _ _ _ _ _ _ _ HP e He).
   Qed.
+
+  Lemma ev_sched_ge x : In x (scheduled (drv_of w m)) -> t <= x.
+  Proof. exact (ev_sched_ge' m x (pe_m _ _ _ _ _ _ _ _ _ HP)). Qed.
 
   Lemma ev_pre : Pre t dr0.
   Proof.
-    destruct (pe_drv _ _ _ _ _ _ _ HP m (pe_m _ _ _ _ _ _ _ HP)) as (l & _ & Hinv & Hperm & _ & _).
+    destruct (pe_drv _ _ _ _ _ _ _ _ _ HP m (pe_m _ _ _ _ _ _ _ _ _ HP)) as (l & _ & Hinv & Hperm & _ & _).
     pose proof ev_sched_ge as Hge.
     unfold dr0. destruct fire.
     - apply (inv_pre_wake l). exact Hinv. apply lmin_of_min; [|exact Hge].
@@ -115,7 +121,7 @@ Section Event.
 
   Lemma ev_sched0 : Permutation (wakes m (spend (w_fes w))) (scheduled dr0).
   Proof.
-    destruct (pe_drv _ _ _ _ _ _ _ HP m (pe_m _ _ _ _ _ _ _ HP)) as (l & _ & _ & Hperm & _ & _).
+    destruct (pe_drv _ _ _ _ _ _ _ _ _ HP m (pe_m _ _ _ _ _ _ _ _ _ HP)) as (l & _ & _ & Hperm & _ & _).
     unfold dr0. destruct fire; cbn [andb] in Hperm.
     - rewrite N.eqb_refl in Hperm. cbn [app sched_fire scheduled] in *. apply perm_remove1. exact Hperm.
     - exact Hperm.
@@ -127,27 +133,27 @@ Section Event.
     exists k tk a s, nth_error (w_tasks w) k = Some tk /\ t_cur tk = Some a /\ In s (held tk) /\ t_mod tk = m /\
                      sid s = id /\ deadline s = d /\ d = t /\ aw_wake a (t_iv tk) = t /\ waker_of (w_owner w) id = Some k.
   Proof.
-    intros Hin Hid. pose proof (pe_base _ _ _ _ _ _ _ HP) as Hbase.
-    destruct (pe_drv _ _ _ _ _ _ _ HP m (pe_m _ _ _ _ _ _ _ HP)) as (l & _ & [Hmid Hwake] & _ & [Hentry Htask _] & _).
+    intros Hin Hid. pose proof (pe_base _ _ _ _ _ _ _ _ _ HP) as Hbase.
+    destruct (pe_drv _ _ _ _ _ _ _ _ _ HP m (pe_m _ _ _ _ _ _ _ _ _ HP)) as (l & _ & [Hmid Hwake] & _ & [Hentry Htask _] & _).
     pose proof (never_early t dr0 d es Hin) as Hle.
     assert (Hp : In (d, es) (pending (drv_of w m))).
     { rewrite <- ev_pending0. unfold activate in Hin. destruct (q_bump t (pending dr0)) as [wk rest] eqn:Eb. cbn [fst] in Hin.
       destruct (q_bump_spec _ _ _ _ Eb) as (-> & _). apply in_or_app. left; exact Hin. }
     assert (Hid' : In id (ents_at d (pending (drv_of w m)))) by (rewrite (in_ents_at _ _ _ (mid_sorted _ _ Hmid) Hp); exact Hid).
     destruct (Htask d id Hid') as (k & tk & s & Hk & Hs & Hm & E1 & E2).
-    destruct (Forall2_nth _ _ _ _ _ (b_states _ _ _ _ Hbase) Hk) as (tk0 & Hk0 & Hst).
-    assert (Hi0 : init_ok tk0).
-    { pose proof (b_init _ _ _ _ Hbase) as Hall. rewrite Forall_forall in Hall. apply Hall. eapply nth_error_In; exact Hk0. }
-    destruct (held_blocked _ _ _ Hst Hi0 Hs) as (a & Hc & Hkind & Hsa & _ & _ & Hheld).
+    destruct (Forall2_nth _ _ _ _ _ (b_states _ _ _ _ _ _ Hbase) Hk) as (tk0 & Hk0 & Hst).
+    assert (Hi0 : init_ok2 A0 tk0).
+    { pose proof (b_init _ _ _ _ _ _ Hbase) as Hall. rewrite Forall_forall in Hall. apply Hall. eapply nth_error_In; exact Hk0. }
+    destruct (held_blocked _ _ _ _ _ Hst Hi0 Hs) as (a & Hc & Hkind & Hsa & _ & _ & Hheld).
     destruct (aw_wake_held a _ Hkind) as [(smin & Hsmin & Emin) Hge].
     (* the Sleep that completes the future is registered: the wake-up that covers it is not before t *)
     assert (Hreg : In (sid smin) (ents_at (aw_wake a (t_iv tk)) (pending (drv_of w m)))).
     { rewrite <- Emin. apply (Hentry k tk smin Hk); [rewrite Hheld; exact Hsmin|exact Hm|left; intros []]. }
     assert (Hne : ents_at (aw_wake a (t_iv tk)) (pending (drv_of w m)) <> []) by (intros E; rewrite E in Hreg; contradiction).
-    destruct (Hwake _ _ (ents_at_in _ _ Hne) Hne (base_blocked_fin _ _ _ _ _ _ _ Hbase Hk Hc)) as (w0 & Hw0 & _ & Hw0d).
+    destruct (Hwake _ _ (ents_at_in _ _ Hne) Hne (base_blocked_fin _ _ _ _ _ _ _ _ _ Hbase Hk Hc)) as (w0 & Hw0 & _ & Hw0d).
     pose proof (ev_sched_ge w0 Hw0) as Htw. pose proof (Hge s Hsa) as Hws.
     exists k, tk, a, s. repeat split; try assumption; try lia.
-    rewrite <- E1. exact (proj2 (b_ids _ _ _ _ Hbase k tk s Hk Hs)).
+    rewrite <- E1. exact (proj2 (b_ids _ _ _ _ _ _ Hbase k tk s Hk Hs)).
   Qed.
 
   Let woken := fst (activate t dr0).
@@ -164,18 +170,18 @@ Section Event.
     unfold owner_of in Hk. rewrite H6 in Hk. destruct Hk as [<-|[]]. exists tk, a. repeat split; assumption.
   Qed.
 
-  Lemma ev_q0_runnable k : In k q0 -> runnable (w_tasks w) t m k.
+  Lemma ev_q0_runnable k : In k q0 -> runnable (w_tasks w) (w_mail w) t m k.
   Proof.
     unfold q0. rewrite dedup_in. intros H. apply in_app_or in H. destruct H as [H|H].
     - destruct (ev_q0_woken k H) as (tk & a & H1 & H2 & H3 & H4). exists tk. split; [exact H1|]. split; [exact H3|].
-      right. exists a. split; assumption.
-    - destruct (pe_spawn _ _ _ _ _ _ _ HP k H) as (tk & H1 & H2 & H3 & H4). exists tk. split; [exact H1|]. split; [exact H3|].
+      right. exists a. split; [exact H2|left; exact H4].
+    - destruct (pe_spawn _ _ _ _ _ _ _ _ _ HP k H) as (tk & H1 & H2 & H3 & H4). exists tk. split; [exact H1|]. split; [exact H3|].
       left. split; assumption.
   Qed.
 
   Lemma ev_tie1 : Tie (w_tasks w) t q0 m dr1.
   Proof.
-    destruct (pe_drv _ _ _ _ _ _ _ HP m (pe_m _ _ _ _ _ _ _ HP)) as (l & _ & [Hmid _] & _ & [Hentry Htask Hnd] & _).
+    destruct (pe_drv _ _ _ _ _ _ _ _ _ HP m (pe_m _ _ _ _ _ _ _ _ _ HP)) as (l & _ & [Hmid _] & _ & [Hentry Htask Hnd] & _).
     pose proof (mid_sorted _ _ Hmid) as Hs.
     assert (Hmid1 : Mid t dr1) by (apply activate_mid; exact ev_pre).
     assert (Hsub : forall d E, In (d, E) (pending dr1) -> In (d, E) (pending (drv_of w m))).
@@ -194,7 +200,7 @@ Section Event.
         apply in_flat_map. exists (sid s). split.
         * apply in_flat_map. exists (deadline s, E). split; [|exact Hold].
           unfold woken. apply bump_takes_all_due; [rewrite ev_pending0; exact Hs|exact Hin|exact Hle].
-        * unfold owner_of. rewrite (proj2 (b_ids _ _ _ _ (pe_base _ _ _ _ _ _ _ HP) k tk s Hk Hsh)). left; reflexivity.
+        * unfold owner_of. rewrite (proj2 (b_ids _ _ _ _ _ _ (pe_base _ _ _ _ _ _ _ _ _ HP) k tk s Hk Hsh)). left; reflexivity.
       + pose proof (activate_keeps_future t dr0 _ _ Hin Hgt) as Hk1. fold dr1 in Hk1.
         rewrite (in_ents_at _ _ _ (mid_sorted _ _ Hmid1) Hk1). exact Hold.
     - intros d id Hin.
@@ -205,63 +211,74 @@ Section Event.
       rewrite <- Ed, (Hsame d Hne). apply Hnd.
   Qed.
 
-  (* a woken task's due timer made next_wakeup due as well: activation cleared it *)
-  Lemma ev_nwq k tk a : In k q0 -> nth_error (w_tasks w) k = Some tk -> t_cur tk = Some a -> next_wakeup dr1 = None.
+  (* the instant of the first timer wake-up of a blocked task is not before t *)
+  Lemma ev_wake_ge k tk a : nth_error (w_tasks w) k = Some tk -> t_cur tk = Some a -> t <= aw_wake a (t_iv tk).
   Proof.
-    intros Hin Hk Hc. pose proof (pe_base _ _ _ _ _ _ _ HP) as Hbase.
-    destruct (pe_drv _ _ _ _ _ _ _ HP m (pe_m _ _ _ _ _ _ _ HP)) as (l & _ & [Hmid _] & _ & [Hentry _ _] & ([_ _ _ Hcov] & _)).
-    assert (Hwk : aw_wake a (t_iv tk) = t /\ t_mod tk = m).
-    { unfold q0 in Hin. rewrite dedup_in in Hin. apply in_app_or in Hin. destruct Hin as [Hin|Hin].
-      - destruct (ev_q0_woken k Hin) as (tk' & a' & H1 & H2 & H3 & H4). rewrite Hk in H1. injection H1 as <-.
-        rewrite Hc in H2. injection H2 as <-. split; assumption.
-      - destruct (pe_spawn _ _ _ _ _ _ _ HP k Hin) as (tk' & H1 & [Hcn _] & _). rewrite Hk in H1. injection H1 as <-.
-        rewrite Hc in Hcn. discriminate. }
-    destruct Hwk as [Hwk Hm].
-    destruct (Forall2_nth _ _ _ _ _ (b_states _ _ _ _ Hbase) Hk) as (tk0 & Hk0 & Hst).
-    assert (Hi0 : init_ok tk0).
-    { pose proof (b_init _ _ _ _ Hbase) as Hall. rewrite Forall_forall in Hall. apply Hall. eapply nth_error_In; exact Hk0. }
-    destruct (tstate_blocked _ _ _ Hst Hi0 Hc) as (st0 & rest0 & _ & _ & _ & _ & _ & Hkind & _ & _ & Hheld & _).
+    intros Hk Hc. pose proof (pe_base _ _ _ _ _ _ _ _ _ HP) as Hbase.
+    destruct (Forall2_nth _ _ _ _ _ (b_states _ _ _ _ _ _ Hbase) Hk) as (tk0 & Hk0 & Hst).
+    assert (Hi0 : init_ok2 A0 tk0).
+    { pose proof (b_init _ _ _ _ _ _ Hbase) as Hall. rewrite Forall_forall in Hall. apply Hall. eapply nth_error_In; exact Hk0. }
+    assert (Hm2 : t_mod tk < 2).
+    { destruct (tstate_cases _ _ _ _ Hst Hi0) as (E1 & _). rewrite E1. exact (proj1 (proj2 (proj2 (proj2 (proj2 (proj2 Hi0)))))). }
+    destruct (pe_drv _ _ _ _ _ _ _ _ _ HP (t_mod tk) Hm2) as (l & _ & [Hmid Hwake] & _ & [Hentry _ _] & _).
+    destruct (tstate_blocked _ _ _ _ _ Hst Hi0 Hc) as (st0 & rest0 & _ & _ & _ & _ & _ & Hkind & _ & _ & Hheld & _).
     destruct (aw_wake_held a _ Hkind) as [(smin & Hsmin & Emin) _].
-    assert (Hreg : In (sid smin) (ents_at t (pending (drv_of w m)))).
-    { rewrite <- Hwk, <- Emin. apply (Hentry k tk smin Hk); [rewrite Hheld; exact Hsmin|exact Hm|left; intros []]. }
-    assert (Hne : ents_at t (pending (drv_of w m)) <> []) by (intros E; rewrite E in Hreg; contradiction).
-    assert (Hfin : t < TMAX) by (rewrite <- Hwk; exact (base_blocked_fin _ _ _ _ _ _ _ Hbase Hk Hc)).
-    destruct (Hcov t _ (ents_at_in _ _ Hne) Hne Hfin) as (x & Hx & _ & _ & Hxt).
-    unfold dr1, activate. destruct (q_bump t (pending dr0)) as [wk rest1]. cbn [snd next_wakeup].
-    assert (E : next_wakeup dr0 = next_wakeup (drv_of w m)) by (unfold dr0; destruct fire; reflexivity).
-    rewrite E, Hx. replace (x <=? t) with true by lia. reflexivity.
+    assert (Hreg : In (sid smin) (ents_at (aw_wake a (t_iv tk)) (pending (drv_of w (t_mod tk))))).
+    { rewrite <- Emin. apply (Hentry k tk smin Hk); [rewrite Hheld; exact Hsmin|reflexivity|left; intros []]. }
+    assert (Hne : ents_at (aw_wake a (t_iv tk)) (pending (drv_of w (t_mod tk))) <> []) by (intros E; rewrite E in Hreg; contradiction).
+    destruct (Hwake _ _ (ents_at_in _ _ Hne) Hne (base_blocked_fin _ _ _ _ _ _ _ _ _ Hbase Hk Hc)) as (w0 & Hw0 & _ & Hw0d).
+    pose proof (ev_sched_ge' _ w0 Hm2 Hw0). lia.
   Qed.
 
-  (* activation keeps the liveness fact of the fragment *)
-  Lemma ev_live1 : NwLive dr1.
+  (* the channels at instant t: no message will be sent before t *)
+  Lemma ev_arr : Arr A t (w_tasks w) (w_mail w).
   Proof.
-    destruct (pe_drv _ _ _ _ _ _ _ HP m (pe_m _ _ _ _ _ _ _ HP)) as (l & _ & [Hmid _] & _ & _ & (_ & Hn)).
-    assert (Hmid1 : Mid t dr1) by (apply activate_mid; exact ev_pre).
-    assert (Hnw : forall x, next_wakeup dr1 = Some x -> next_wakeup (drv_of w m) = Some x /\ t < x).
-    { intros x Hx. unfold dr1, activate in Hx. destruct (q_bump t (pending dr0)) as [wk rest]. cbn [snd next_wakeup] in Hx.
-      assert (E : next_wakeup dr0 = next_wakeup (drv_of w m)) by (unfold dr0; destruct fire; reflexivity).
-      rewrite E in Hx. destruct (next_wakeup (drv_of w m)) as [y|]; [|discriminate].
-      destruct (y <=? t) eqn:Ey; [discriminate|]. injection Hx as <-. split; [reflexivity|lia]. }
-    intros x Hx. destruct (Hnw x Hx) as [Hx0 Hlt]. pose proof (Hn x Hx0) as Hne.
-    set (E := ents_at x (pending (drv_of w m))) in *.
-    assert (Hin : In (x, E) (pending dr0)) by (rewrite ev_pending0; apply ents_at_in; exact Hne).
-    pose proof (activate_keeps_future t dr0 x E Hin Hlt) as Hk. fold dr1 in Hk.
-    rewrite (in_ents_at _ _ _ (mid_sorted _ _ Hmid1) Hk). exact Hne.
+    intros m' c. destruct (pe_arr _ _ _ _ _ _ _ _ _ HP m' c) as (EA & F1 & F2). split; [exact EA|]. split.
+    - eapply Forall_impl; [|exact F1]. cbn beta. intros a Ha. pose proof (pe_now _ _ _ _ _ _ _ _ _ HP). lia.
+    - pose proof (pe_base _ _ _ _ _ _ _ _ _ HP) as Hbase. destruct (pe_msgs _ _ _ _ _ _ _ _ _ HP) as [Mt _ Ma _].
+      unfold fsends. apply Forall_forall. intros x Hx. apply in_flat_map in Hx. destruct Hx as (tk & Htk & Hx).
+      destruct (t_mod tk =? m') eqn:Em; [|contradiction]. apply In_nth_error in Htk. destruct Htk as (k & Hk).
+      unfold on_chan in Hx. apply in_map_iff in Hx. destruct Hx as ([c' x'] & E1 & Hx). cbn [snd] in E1. subst x'.
+      apply filter_In in Hx. destruct Hx as [Hx _].
+      unfold fut_sends in Hx. destruct (t_cur tk) as [a|] eqn:Ec.
+      + (* blocked: its messages come after the instant its await completes, which is not before its first timer wake-up *)
+        destruct (Forall2_nth _ _ _ _ _ (b_states _ _ _ _ _ _ Hbase) Hk) as (tk0 & Hk0 & Hst).
+        assert (Hi0 : init_ok2 A0 tk0).
+        { pose proof (b_init _ _ _ _ _ _ Hbase) as Hall. rewrite Forall_forall in Hall. apply Hall. eapply nth_error_In; exact Hk0. }
+        destruct (rcv_of tk0) eqn:Er.
+        * pose proof (rcv_no_sends _ _ _ _ Hst Hi0 Er) as Hnil. unfold fut_sends in Hnil. rewrite Ec in Hnil. rewrite Hnil in Hx. contradiction.
+        * destruct (tstate_blocked _ _ _ _ _ Hst Hi0 Ec) as (st0 & rest0 & _ & _ & _ & _ & _ & Hkind & _ & _ & _ & _ & _ & _ & H14).
+          assert (Hnw : waits_on (Some a) = None).
+          { destruct (waits_on (Some a)) as [ch|] eqn:Ew; [|reflexivity]. specialize (H14 ch eq_refl). congruence. }
+          pose proof (exp_sends_ge _ _ _ _ _ Hx) as Hge. pose proof (ev_wake_ge k tk a Hk Ec) as Hwg.
+          assert (Hew : aw_wake a (t_iv tk) <= aw_end a (t_iv tk) noarr).
+          { clear -Hkind Hnw. destruct a as [s|v dl|biased tie sa sb| | | | |rearm d3 s sx|pre s]; try contradiction; cbn [aw_end aw_wake]; try lia.
+            - destruct v; try contradiction; [cbn [aw_end aw_wake]; lia|discriminate].
+            - destruct (deadline s <=? deadline sx) eqn:E; lia. }
+          lia.
+      + destruct (t_fin tk) eqn:Ef; [contradiction|]. pose proof (exp_sends_ge _ _ _ _ _ Hx) as Hge.
+        (* unspawned: it starts at t (spawned now) or when its message arrives *)
+        destruct (Ma k tk Hk (conj Ec Ef)) as [[Hl|Hs]|(e & He & Ep)].
+        * pose proof (pe_later_start _ _ _ _ _ _ _ _ _ HP k tk Hl Hk). lia.
+        * destruct (pe_spawn _ _ _ _ _ _ _ _ _ HP k Hs) as (tk' & H1 & _ & _ & H4). rewrite Hk in H1. injection H1 as <-. lia.
+        * destruct (Mt e He ltac:(rewrite Ep; unfold msg_of; lia)) as (k' & tk' & E1 & Hk' & _ & E2 & _).
+          rewrite Ep in E1. unfold msg_of in E1. assert (k' = k) by lia. subst k'. rewrite Hk in Hk'. injection Hk' as <-.
+          pose proof (pe_min _ _ _ _ _ _ _ _ _ HP e He). lia.
   Qed.
 
-  Lemma ev_minv1 : MInv ts0 t m q0 w1.
+  Lemma ev_minv1 : MInv A0 A ts0 t m q0 w1.
   Proof.
     assert (Hf : w_mail w1 = w_mail w /\ w_tasks w1 = w_tasks w /\ w_owner w1 = w_owner w /\ w_nid w1 = w_nid w)
       by (unfold w1, set_drv; destruct (m =? 0); repeat split).
     destruct Hf as (F1 & F2 & F3 & F4). constructor; rewrite ?F1, ?F2, ?F3, ?F4.
-    - exact (pe_mail _ _ _ _ _ _ _ HP).
-    - exact (pe_base _ _ _ _ _ _ _ HP).
+    - exact (pe_inert _ _ _ _ _ _ _ _ _ HP).
+    - exact ev_arr.
+    - exact (pe_base _ _ _ _ _ _ _ _ _ HP).
     - unfold q0, dedup. apply dedup_acc_nodup.
     - exact ev_q0_runnable.
     - unfold w1. rewrite drv_of_set_same. apply activate_mid. exact ev_pre.
     - unfold w1. rewrite drv_of_set_same. exact ev_tie1.
-    - unfold w1. rewrite drv_of_set_same. exact ev_live1.
-    - intros k tk a Hin Hk Hc. unfold w1. rewrite drv_of_set_same. exact (ev_nwq k tk a Hin Hk Hc).
+    - intros k tk ch Hk Hw Hne. exfalso. exact (Hne (pe_norecv _ _ _ _ _ _ _ _ _ HP k tk ch Hk Hw)).
   Qed.
 End Event.
 
@@ -277,17 +294,6 @@ Proof.
   - cbn [pending scheduled]. rewrite app_nil_r. repeat split. intros x H; discriminate.
 Qed.
 
-Lemma deactivate_live t dr : Mid t dr -> NwLive dr -> NwLive (fst (deactivate true dr)).
-Proof.
-  intros Hm Hn. pose proof (mid_sorted _ _ Hm) as Hs. destruct (deactivate_out dr) as (Dp & _ & _).
-  intros x Hx. rewrite Dp. revert Hx. unfold deactivate, q_next.
-  destruct (prune (pending dr)) as [|[d0 es0] r] eqn:Ep; cbn [front_time fst next_wakeup].
-  - intros Hx. pose proof (Hn x Hx) as Hne. rewrite <- Ep. rewrite ents_at_prune_keep; assumption.
-  - destruct (earlier d0 (next_wakeup dr)); cbn [fst next_wakeup]; intros Hx.
-    + injection Hx as <-. cbn [ents_at]. rewrite N.eqb_refl. exact (prune_head_live _ _ _ _ Ep).
-    + pose proof (Hn x Hx) as Hne. rewrite <- Ep. rewrite ents_at_prune_keep; assumption.
-Qed.
-
 Lemma mod_other m m' : m < 2 -> m' < 2 -> m' <> m -> (m' =? 0) <> (m =? 0).
 Proof. intros H1 H2 H3 E. destruct (m' =? 0) eqn:A, (m =? 0) eqn:B; try discriminate; lia. Qed.
 
@@ -297,35 +303,42 @@ Lemma drv_of_world f n d0 d1 ts nid own mail sn m :
 Proof. reflexivity. Qed.
 
 (* ---- one event re-establishes the boundary invariant ---- *)
-Theorem module_event_winv ts0 later w t m spawn fire :
-  PreEv ts0 later w t m spawn fire -> WInv ts0 later (module_event true t m spawn fire w).
+Lemma queue_fuel_ok w q : (length q + psends (w_tasks w) <= queue_fuel w q)%nat.
+Proof.
+  unfold queue_fuel. pose proof (psends_bound (w_tasks w)) as H.
+  assert (H1 : forall l, (fold_right (fun tk n => (length (t_steps tk) + n)%nat) 0%nat l <= fold_right (fun tk n => (length (t_steps tk) + n)%nat) 1%nat l)%nat).
+  { induction l as [|x l IH]; cbn [fold_right]; lia. }
+  specialize (H1 (w_tasks w)). nia.
+Qed.
+
+Theorem module_event_winv A0 A ts0 later w t m spawn fire :
+  PreEv A0 A ts0 later w t m spawn fire -> exists A', WInv A0 A' ts0 later (module_event true t m spawn fire w).
 Proof.
   intros HP.
-  pose proof (ev_minv1 ts0 later w t m spawn fire HP) as Hm1.
-  pose proof (ev_sched0 ts0 later w t m spawn fire HP) as Hs0.
-  pose proof (ev_q0_runnable ts0 later w t m spawn fire HP) as Hq0run.
-  pose proof (ev_q0_woken ts0 later w t m spawn fire HP) as Hq0wk.
+  pose proof (ev_minv1 A0 A ts0 later w t m spawn fire HP) as Hm1.
+  pose proof (ev_sched0 A0 A ts0 later w t m spawn fire HP) as Hs0.
+  pose proof (ev_q0_runnable A0 A ts0 later w t m spawn fire HP) as Hq0run.
+  pose proof (ev_q0_woken A0 A ts0 later w t m spawn fire HP) as Hq0wk.
   unfold module_event.
   set (dr0 := if fire then sched_fire t (drv_of w m) else drv_of w m) in *.
   pose proof (activate_sched t dr0) as Hsa.
   destruct (activate t dr0) as [wk d1]. cbn [fst snd] in *.
   set (q0 := dedup (flat_map (owner_of (w_owner w)) (flat_map snd wk) ++ spawn)) in *.
   set (w1 := set_drv w m d1) in *.
-  assert (Hlen : (length q0 <= queue_fuel w1 q0)%nat) by (unfold queue_fuel; lia).
-  destruct (run_queue_frag ts0 t m (queue_fuel w1 q0) q0 w1 Hlen Hm1) as (Hm2 & F1 & F2 & F3 & F4 & F5 & F6 & F7 & F8).
+  destruct (run_queue_frag A0 ts0 t m (queue_fuel w1 q0) q0 A w1 (queue_fuel_ok w1 q0) Hm1) as ((A2 & Hm2) & F1 & F2 & F3 & F4 & F5 & F6 & F7m & F7 & F8).
   destruct (run_queue_drv true (queue_fuel w1 q0) t m q0 w1) as [Hacts _].
   set (w2 := run_queue true (queue_fuel w1 q0) t m q0 w1) in *.
   unfold w1 in Hacts at 1. rewrite drv_of_set_same in Hacts.
   pose proof (acts_sched _ _ _ Hacts) as Hs2.
   destruct (deactivate_out (drv_of w2 m)) as (Dp & Ds & Dn).
-  pose proof (deactivate_inv t (drv_of w2 m) (mi_mid _ _ _ _ _ Hm2)) as Hinv3.
+  pose proof (deactivate_inv t (drv_of w2 m) (mi_mid _ _ _ _ _ _ _ Hm2)) as Hinv3.
   destruct (deactivate true (drv_of w2 m)) as [dr3 wk'] eqn:Ed. cbn [fst snd] in *.
   (* unchanged parts of the world *)
   assert (W1 : w_fes w1 = w_fes w /\ w_now w1 = w_now w /\ w_tasks w1 = w_tasks w /\
                forall m', (m' =? 0) <> (m =? 0) -> drv_of w1 m' = drv_of w m').
   { unfold w1. repeat split; try (unfold set_drv; destruct (m =? 0); reflexivity). intros m' Hne. apply drv_of_set_other. exact Hne. }
   destruct W1 as (W1a & W1b & W1c & W1d).
-  pose proof (pe_m _ _ _ _ _ _ _ HP) as Hm.
+  pose proof (pe_m _ _ _ _ _ _ _ _ _ HP) as Hm.
   set (w3 := set_drv w2 m dr3).
   assert (W3 : w_fes w3 = w_fes w /\ w_tasks w3 = w_tasks w2 /\ w_nid w3 = w_nid w2 /\ w_owner w3 = w_owner w2 /\
                w_mail w3 = w_mail w2 /\ drv_of w3 m = dr3 /\ forall m', (m' =? 0) <> (m =? 0) -> drv_of w3 m' = drv_of w m').
@@ -339,38 +352,45 @@ Proof.
                  Permutation (spend fes') (match wk' with Some x => [{| etime := x; eid := s_next (w_fes w); epay := m |}] | None => [] end ++ spend (w_fes w))).
   { unfold fes'. rewrite W3a. destruct wk' as [x|].
     - assert (Hx : t < x). { destruct Hinv3 as [Hmid3 _]. exact (proj1 (mid_nw _ _ Hmid3 x (Dn x eq_refl))). }
-      destruct (add_perm (w_fes w) x m) as [P1 P2]; [rewrite (pe_tcur _ _ _ _ _ _ _ HP); lia|].
-      split; [apply SI_add; exact (pe_si _ _ _ _ _ _ _ HP)|]. split; [rewrite P2; exact (pe_tcur _ _ _ _ _ _ _ HP)|exact P1].
-    - split; [exact (pe_si _ _ _ _ _ _ _ HP)|]. split; [exact (pe_tcur _ _ _ _ _ _ _ HP)|apply Permutation_refl]. }
+      destruct (add_perm (w_fes w) x m) as [P1 P2]; [rewrite (pe_tcur _ _ _ _ _ _ _ _ _ HP); lia|].
+      split; [apply SI_add; exact (pe_si _ _ _ _ _ _ _ _ _ HP)|]. split; [rewrite P2; exact (pe_tcur _ _ _ _ _ _ _ _ _ HP)|exact P1].
+    - split; [exact (pe_si _ _ _ _ _ _ _ _ _ HP)|]. split; [exact (pe_tcur _ _ _ _ _ _ _ _ _ HP)|apply Permutation_refl]. }
   destruct Hfes as (Hsi' & Htc' & Hperm').
-  (* tasks that were polled belong to module m *)
-  assert (Hq0mod : forall k tk, In k q0 -> nth_error (w_tasks w2) k = Some tk -> t_mod tk = m).
-  { intros k tk Hin Hk. destruct (Hq0run k Hin) as (tkp & Hkp & Hmp & _).
-    pose proof (mi_base _ _ _ _ _ Hm2) as B2. pose proof (pe_base _ _ _ _ _ _ _ HP) as B0.
-    destruct (Forall2_nth _ _ _ _ _ (b_states _ _ _ _ B2) Hk) as (tk0 & Hk0 & Hst2).
-    destruct (Forall2_nth _ _ _ _ _ (b_states _ _ _ _ B0) Hkp) as (tk0' & Hk0' & Hst0).
+  pose proof (mi_base _ _ _ _ _ _ _ Hm2) as B2. pose proof (pe_base _ _ _ _ _ _ _ _ _ HP) as B0.
+  pose proof (b_init _ _ _ _ _ _ B0) as Hinit. rewrite Forall_forall in Hinit.
+  (* the module of a task never changes *)
+  assert (Hmodsame : forall k tk tk2, nth_error (w_tasks w) k = Some tk -> nth_error (w_tasks w2) k = Some tk2 -> t_mod tk2 = t_mod tk).
+  { intros k tk tk2 Hk Hk2.
+    destruct (Forall2_nth _ _ _ _ _ (b_states _ _ _ _ _ _ B2) Hk2) as (tk0 & Hk0 & Hst2).
+    destruct (Forall2_nth _ _ _ _ _ (b_states _ _ _ _ _ _ B0) Hk) as (tk0' & Hk0' & Hst0).
     rewrite Hk0 in Hk0'. injection Hk0' as <-.
-    assert (Hi : init_ok tk0). { pose proof (b_init _ _ _ _ B0) as Ha. rewrite Forall_forall in Ha. apply Ha. eapply nth_error_In; exact Hk0. }
-    destruct (tstate_cases _ _ Hst2 Hi) as (E2 & _). destruct (tstate_cases _ _ Hst0 Hi) as (E0 & _). congruence. }
-  constructor; cbn [w_fes w_now w_mail w_tasks w_owner w_nid].
+    pose proof (Hinit tk0 (nth_error_In _ _ Hk0)) as Hi.
+    destruct (tstate_cases _ _ _ _ Hst2 Hi) as (E2 & _). destruct (tstate_cases _ _ _ _ Hst0 Hi) as (E0 & _). congruence. }
+  (* a task of the other module is not touched *)
+  assert (Hothertask : forall k tk, nth_error (w_tasks w) k = Some tk -> t_mod tk <> m -> nth_error (w_tasks w2) k = Some tk).
+  { intros k tk Hk Hne. apply F4; [rewrite W1c; exact Hk| |right; exact Hne].
+    intros Hin. destruct (Hq0run k Hin) as (tkp & Hkp & Hmp & _). rewrite Hk in Hkp. injection Hkp as <-. exact (Hne Hmp). }
+  exists A2. constructor; cbn [w_fes w_now w_mail w_tasks w_owner w_nid].
   - exact Hsi'.
   - exact Htc'.
-  - rewrite W3e. exact (mi_mail _ _ _ _ _ Hm2).
-  - rewrite W3b, W3c, W3d. exact (mi_base _ _ _ _ _ Hm2).
+  - rewrite W3e. exact (mi_inert _ _ _ _ _ _ _ Hm2).
+  - rewrite W3e, W3b. exact (mi_arr _ _ _ _ _ _ _ Hm2).
+  - rewrite W3e, W3b. intros k tk ch Hk Hw.
+    destruct (chan (t_mod tk) ch (w_mail w2)) as [|s0 l0] eqn:Ec; [reflexivity|exfalso].
+    destruct (mi_recvq _ _ _ _ _ _ _ Hm2 k tk ch Hk Hw ltac:(rewrite Ec; discriminate)) as (_ & [] & _).
+  - rewrite W3b, W3c, W3d. exact B2.
   - intros m' Hm'. rewrite drv_of_world. change (if m' =? 0 then w_d0 w3 else w_d1 w3) with (drv_of w3 m').
     rewrite W3b.
     destruct (N.eq_dec m' m) as [->|Hne].
     + rewrite W3f. exists t. split; [lia|]. split; [exact Hinv3|].
-      assert (Hex : Extra t dr3).
-      { pose proof (deactivate_snap t (drv_of w2 m) (mi_mid _ _ _ _ _ Hm2)) as Hsn.
-        pose proof (deactivate_live t (drv_of w2 m) (mi_mid _ _ _ _ _ Hm2) (mi_live _ _ _ _ _ Hm2)) as Hlv.
-        rewrite Ed in Hsn, Hlv. cbn [fst] in Hsn, Hlv. split; [exact Hsn|exact Hlv]. }
+      assert (Hex : Snap t dr3).
+      { pose proof (deactivate_snap t (drv_of w2 m) (mi_mid _ _ _ _ _ _ _ Hm2)) as Hsn. rewrite Ed in Hsn. exact Hsn. }
       split; [|split; [|exact Hex]].
       * eapply Permutation_trans; [apply wakes_perm; exact Hperm'|]. rewrite Ds, Hs2, Hsa.
         destruct wk' as [x|]; cbn [app]; [|rewrite app_nil_r; exact Hs0].
         rewrite wakes_cons. cbn [epay etime]. rewrite N.eqb_refl.
         eapply Permutation_trans; [apply perm_skip; exact Hs0|apply Permutation_cons_append].
-      * destruct (mi_tie _ _ _ _ _ Hm2) as [He Ht Hnd]. pose proof (mid_sorted _ _ (mi_mid _ _ _ _ _ Hm2)) as Hsrt.
+      * destruct (mi_tie _ _ _ _ _ _ _ Hm2) as [He Ht Hnd]. pose proof (mid_sorted _ _ (mi_mid _ _ _ _ _ _ _ Hm2)) as Hsrt.
         constructor.
         -- intros k tk s Hk Hbl Hmm Hq. rewrite Dp. pose proof (He k tk s Hk Hbl Hmm Hq) as Hold.
            rewrite ents_at_prune_keep; [exact Hold|exact Hsrt|]. intros E; rewrite E in Hold; contradiction.
@@ -380,23 +400,24 @@ Proof.
            intros E. assert (Hin : In e0 (ents_at d (pending (drv_of w2 m)))) by (apply (ents_at_prune_in _ _ _ Hsrt); rewrite Ed0; left; reflexivity).
            rewrite E in Hin. contradiction.
     + pose proof (mod_other m m' Hm Hm' Hne) as Hoth. rewrite (W3g m' Hoth).
-      destruct (pe_drv _ _ _ _ _ _ _ HP m' Hm') as (l & Hl & Hinv & Hperm & [He Ht Hnd] & Hex).
-      exists l. split; [pose proof (pe_now _ _ _ _ _ _ _ HP); lia|]. split; [exact Hinv|]. split; [|split; [|exact Hex]].
+      destruct (pe_drv _ _ _ _ _ _ _ _ _ HP m' Hm') as (l & Hl & Hinv & Hperm & [He Ht Hnd] & Hex).
+      exists l. split; [pose proof (pe_now _ _ _ _ _ _ _ _ _ HP); lia|]. split; [exact Hinv|]. split; [|split; [|exact Hex]].
       * eapply Permutation_trans; [apply wakes_perm; exact Hperm'|].
         replace (fire && (m' =? m)) with false in Hperm by (destruct fire; cbn [andb]; [lia|reflexivity]). cbn [app] in Hperm.
         destruct wk' as [x|]; cbn [app]; [|exact Hperm].
         rewrite wakes_cons. cbn [epay]. replace (m =? m') with false by lia. exact Hperm.
       * constructor.
         -- intros k tk s Hk Hbl Hmm Hq.
-           assert (Hnq : ~ In k q0) by (intros Hin; pose proof (Hq0mod k tk Hin Hk); congruence).
-           rewrite (F4 k Hnq), W1c in Hk. exact (He k tk s Hk Hbl Hmm Hq).
+           (* the task is one of module m': untouched *)
+           destruct (nth_error (w_tasks w) k) as [tk1|] eqn:Ek1.
+           ++ assert (Hm1' : t_mod tk1 <> m) by (rewrite <- (Hmodsame k tk1 tk Ek1 Hk); lia).
+              rewrite (Hothertask k tk1 Ek1 Hm1') in Hk. injection Hk as <-. exact (He k tk1 s Ek1 Hbl Hmm Hq).
+           ++ exfalso. apply nth_error_None in Ek1. rewrite <- W1c, <- F5 in Ek1. apply nth_error_None in Ek1. fold w2 in Ek1. congruence.
         -- intros d id Hin. destruct (Ht d id Hin) as (k & tk & s & Hk & Hbl & Hmm & E1 & E2).
-           assert (Hnq : ~ In k q0).
-           { intros Hin'. destruct (Hq0run k Hin') as (tkp & Hkp & Hmp & _). rewrite Hk in Hkp. injection Hkp as <-. congruence. }
-           exists k, tk, s. rewrite (F4 k Hnq), W1c. repeat split; assumption.
+           exists k, tk, s. rewrite (Hothertask k tk Hk ltac:(lia)). repeat split; assumption.
         -- exact Hnd.
   - (* the messages *)
-    destruct (pe_msgs _ _ _ _ _ _ _ HP) as [Mt Mn Ma Ml]. rewrite W3b.
+    destruct (pe_msgs _ _ _ _ _ _ _ _ _ HP) as [Mt Mn Ma Ml]. rewrite W3b.
     assert (Hnewpay : forall e, In e (match wk' with Some x => [{| etime := x; eid := s_next (w_fes w); epay := m |}] | None => [] end) -> epay e < 2).
     { intros e He. destruct wk'; [destruct He as [<-|[]]; exact Hm|contradiction]. }
     assert (Hin' : forall e, In e (spend fes') -> 2 <= epay e -> In e (spend (w_fes w))).
@@ -406,11 +427,14 @@ Proof.
     { intros k tk Hk Hun Hns Hin. unfold q0 in Hin. rewrite dedup_in in Hin. apply in_app_or in Hin. destruct Hin as [Hin|Hin]; [|exact (Hns Hin)].
       destruct (Hq0wk k Hin) as (tk' & a & H1 & H2 & _). rewrite Hk in H1. injection H1 as <-.
       destruct Hun as [Hc _]. rewrite H2 in Hc. discriminate. }
+    (* a task that is not spawned in this event stays as it is *)
+    assert (Hkeep : forall k tk, nth_error (w_tasks w) k = Some tk -> unspawned tk -> ~ In k q0 -> nth_error (w_tasks w2) k = Some tk).
+    { intros k tk Hk Hun Hnq. apply F4; [rewrite W1c; exact Hk|exact Hnq|left; exact (proj1 Hun)]. }
     constructor.
     + intros e He Hp. destruct (Mt e (Hin' e He Hp) Hp) as (k & tk & E1 & Hk & Hun & E2 & E3).
       assert (Hns : ~ In k spawn).
-      { intros Hs. exact (pe_spawn_msg _ _ _ _ _ _ _ HP k e Hs (Hin' e He Hp) E1). }
-      exists k, tk. rewrite (F4 k (Hstill k tk Hk Hun Hns)), W1c. split; [exact E1|split; [exact Hk|split; [exact Hun|split; [exact E2|exact E3]]]].
+      { intros Hs. exact (pe_spawn_msg _ _ _ _ _ _ _ _ _ HP k e Hs (Hin' e He Hp) E1). }
+      exists k, tk. rewrite (Hkeep k tk Hk Hun (Hstill k tk Hk Hun Hns)). split; [exact E1|split; [reflexivity|split; [exact Hun|split; [exact E2|exact E3]]]].
     + eapply Permutation_NoDup; [apply Permutation_sym, perm_filter, Permutation_map; exact Hperm'|].
       rewrite map_app, filter_app.
       replace (filter (fun p => 2 <=? p) (map epay (match wk' with Some x => [{| etime := x; eid := s_next (w_fes w); epay := m |}] | None => [] end))) with (@nil N).
@@ -418,37 +442,43 @@ Proof.
       * destruct wk'; cbn [map filter epay]; [replace (2 <=? m) with false by lia|]; reflexivity.
     + intros k tk Hk Hun.
       destruct (in_dec Nat.eq_dec k q0) as [Hin|Hnq]; [exfalso; exact (F7 k tk Hin Hk Hun)|].
-      rewrite (F4 k Hnq), W1c in Hk. destruct (Ma k tk Hk Hun) as [[Hl|Hs]|(e & He & Ep)].
-      * left; exact Hl.
-      * exfalso. apply Hnq. unfold q0. rewrite dedup_in. apply in_or_app. right; exact Hs.
-      * right. exists e. split; [|exact Ep]. eapply Permutation_in; [apply Permutation_sym; exact Hperm'|]. apply in_or_app. right; exact He.
+      (* it was unspawned before as well: polls never make a task unspawned *)
+      destruct (nth_error (w_tasks w) k) as [tk1|] eqn:Ek1.
+      * assert (Hun1 : unspawned tk1).
+        { destruct (t_cur tk1) eqn:Ec1; [|destruct (t_fin tk1) eqn:Ef1; [|split; assumption]]; exfalso.
+          - apply (F7m k tk1 tk); [rewrite W1c; exact Ek1|exact Hk| |exact Hun]. intros [Hc _]. congruence.
+          - apply (F7m k tk1 tk); [rewrite W1c; exact Ek1|exact Hk| |exact Hun]. intros [_ Hf]. congruence. }
+        rewrite (Hkeep k tk1 Ek1 Hun1 Hnq) in Hk. injection Hk as <-.
+        destruct (Ma k tk1 Ek1 Hun) as [[Hl|Hs]|(e & He & Ep)].
+        -- left; exact Hl.
+        -- exfalso. apply Hnq. unfold q0. rewrite dedup_in. apply in_or_app. right; exact Hs.
+        -- right. exists e. split; [|exact Ep]. eapply Permutation_in; [apply Permutation_sym; exact Hperm'|]. apply in_or_app. right; exact He.
+      * exfalso. apply nth_error_None in Ek1. rewrite <- W1c, <- F5 in Ek1. apply nth_error_None in Ek1. fold w2 in Ek1. congruence.
     + intros k Hl. destruct (Ml k (or_introl Hl)) as (tk & Hk & Hun). exists tk. split; [|exact Hun].
-      rewrite (F4 k (Hstill k tk Hk Hun (pe_later_spawn _ _ _ _ _ _ _ HP k Hl))), W1c. exact Hk.
+      exact (Hkeep k tk Hk Hun (Hstill k tk Hk Hun (pe_later_spawn _ _ _ _ _ _ _ _ _ HP k Hl))).
 Qed.
 
-(* ---- progress: the measure 2 * work + number of pending events ---- *)
-Lemma prune_alllive p : (forall d es, In (d, es) p -> es <> []) -> prune p = p.
-Proof.
-  destruct p as [|[d [|e es]] r]; intros H; [reflexivity| |reflexivity].
-  exfalso. exact (H d [] (or_introl eq_refl) eq_refl).
-Qed.
-
+(* ---- progress: the measure 2 * work + number of pending events + stale wake-ups ---- *)
 Lemma run_queue_nil wfix fuel t m w : run_queue wfix fuel t m [] w = w.
 Proof. destruct fuel; reflexivity. Qed.
 
-Theorem module_event_measure ts0 later w t m spawn fire :
-  PreEv ts0 later w t m spawn fire ->
+Lemma stale_le dr : (stale dr <= 1)%nat.
+Proof. unfold stale. destruct (next_wakeup dr); [destruct (ents_at _ _)|]; lia. Qed.
+
+Theorem module_event_measure A0 A ts0 later w t m spawn fire :
+  PreEv A0 A ts0 later w t m spawn fire ->
   let w' := module_event true t m spawn fire w in
-  exists nq : nat,
-    (2 * work (w_tasks w') + length (spend (w_fes w')) + 2 * nq <= 2 * work (w_tasks w) + length (spend (w_fes w)) + 1)%nat /\
-    (spawn <> [] -> (1 <= nq)%nat) /\
-    (fire = true -> nq = 0%nat -> length (spend (w_fes w')) = length (spend (w_fes w)) /\ work (w_tasks w') = work (w_tasks w)).
+  (2 * work (w_tasks w') + length (spend (w_fes w')) <= 2 * work (w_tasks w) + length (spend (w_fes w)) + 1)%nat /\
+  (fire = true \/ spawn <> [] ->
+   (2 * work (w_tasks w') + length (spend (w_fes w')) + stale (drv_of w' m) <=
+    2 * work (w_tasks w) + length (spend (w_fes w)) + stale (drv_of w m))%nat) /\
+  (forall m', (m' =? 0) <> (m =? 0) -> drv_of w' m' = drv_of w m').
 Proof.
   intros HP. cbn zeta.
-  pose proof (ev_minv1 ts0 later w t m spawn fire HP) as Hm1.
-  pose proof (ev_woken ts0 later w t m spawn fire HP) as Hwoken.
-  pose proof (ev_pre ts0 later w t m spawn fire HP) as Hpre.
-  destruct (pe_drv _ _ _ _ _ _ _ HP m (pe_m _ _ _ _ _ _ _ HP)) as (l & _ & [Hmidl _] & _ & [Hentry0 Htask0 _] & ([_ _ _ Hcov] & Hnl)).
+  pose proof (ev_minv1 A0 A ts0 later w t m spawn fire HP) as Hm1.
+  pose proof (ev_woken A0 A ts0 later w t m spawn fire HP) as Hwoken.
+  pose proof (ev_pre A0 A ts0 later w t m spawn fire HP) as Hpre.
+  destruct (pe_drv _ _ _ _ _ _ _ _ _ HP m (pe_m _ _ _ _ _ _ _ _ _ HP)) as (l & _ & [Hmidl _] & _ & [Hentry0 Htask0 _] & [_ _ _ Hcov]).
   unfold module_event.
   set (dr0 := if fire then sched_fire t (drv_of w m) else drv_of w m) in *.
   assert (Hp0 : pending dr0 = pending (drv_of w m)) by (unfold dr0; destruct fire; reflexivity).
@@ -459,92 +489,134 @@ Proof.
                 scheduled := scheduled dr0 |}) in *.
   set (q0 := dedup (flat_map (owner_of (w_owner w)) (flat_map snd wk) ++ spawn)) in *.
   set (w1 := set_drv w m d1) in *.
-  assert (Hlen : (length q0 <= queue_fuel w1 q0)%nat) by (unfold queue_fuel; lia).
-  destruct (run_queue_frag ts0 t m (queue_fuel w1 q0) q0 w1 Hlen Hm1) as (Hm2 & F1 & F2 & F3 & F4 & F5 & F6 & F7 & F8).
-  assert (W1c : w_tasks w1 = w_tasks w /\ w_fes w1 = w_fes w) by (unfold w1, set_drv; destruct (m =? 0); split; reflexivity).
-  destruct W1c as [W1c W1a].
-  exists (length q0).
+  destruct (run_queue_frag A0 ts0 t m (queue_fuel w1 q0) q0 A w1 (queue_fuel_ok w1 q0) Hm1) as ((A2 & Hm2) & F1 & F2 & F3 & F4 & F5 & F6 & F7m & F7 & F8).
+  assert (W1c : w_tasks w1 = w_tasks w /\ w_fes w1 = w_fes w /\ forall m', (m' =? 0) <> (m =? 0) -> drv_of w1 m' = drv_of w m').
+  { unfold w1. split; [unfold set_drv; destruct (m =? 0); reflexivity|]. split; [unfold set_drv; destruct (m =? 0); reflexivity|].
+    intros m' Hne. apply drv_of_set_other. exact Hne. }
+  destruct W1c as (W1c & W1a & W1d).
   (* the shape of the result *)
   assert (Hres : forall w2, w_tasks w2 = w_tasks (run_queue true (queue_fuel w1 q0) t m q0 w1) -> w_fes w2 = w_fes w ->
      forall wk' fes', fes' = match wk' with Some x => fst (fst (sp_add (w_fes w) x m)) | None => w_fes w end ->
      (match wk' with Some x => t < x | None => True end) ->
-     (2 * work (w_tasks w2) + length (spend fes') + 2 * length q0 <= 2 * work (w_tasks w) + length (spend (w_fes w)) + 1)%nat).
+     (2 * work (w_tasks w2) + length (spend fes') + 2 * length q0 <= 2 * work (w_tasks w) + length (spend (w_fes w)) + 1)%nat /\
+     length (spend fes') = (length (spend (w_fes w)) + match wk' with Some _ => 1 | None => 0 end)%nat).
   { intros w2 E2 E3 wk' fes' -> Hx. rewrite E2. rewrite W1c in F8.
-    destruct wk' as [x|]; [|lia].
-    destruct (add_perm (w_fes w) x m) as [P1 _]; [rewrite (pe_tcur _ _ _ _ _ _ _ HP); lia|].
-    rewrite (Permutation_length P1). cbn [length]. lia. }
+    destruct wk' as [x|]; [|split; lia].
+    destruct (add_perm (w_fes w) x m) as [P1 _]; [rewrite (pe_tcur _ _ _ _ _ _ _ _ _ HP); lia|].
+    rewrite (Permutation_length P1). cbn [length]. split; lia. }
   set (w2 := run_queue true (queue_fuel w1 q0) t m q0 w1) in *.
-  pose proof (deactivate_inv t (drv_of w2 m) (mi_mid _ _ _ _ _ Hm2)) as Hinv3.
-  destruct (deactivate_out (drv_of w2 m)) as (_ & _ & Dn).
+  pose proof (deactivate_inv t (drv_of w2 m) (mi_mid _ _ _ _ _ _ _ Hm2)) as Hinv3.
+  destruct (deactivate_out (drv_of w2 m)) as (Dp & _ & Dn).
   destruct (deactivate true (drv_of w2 m)) as [dr3 wk'] eqn:Ed. cbn [fst snd] in *.
   assert (Hx : match wk' with Some x => t < x | None => True end).
   { destruct wk' as [x|]; [|exact I]. destruct Hinv3 as [Hmid3 _]. exact (proj1 (mid_nw _ _ Hmid3 x (Dn x eq_refl))). }
-  assert (W3 : w_tasks (set_drv w2 m dr3) = w_tasks w2 /\ w_fes (set_drv w2 m dr3) = w_fes w).
-  { split; [unfold set_drv; destruct (m =? 0); reflexivity|]. rewrite <- W1a, <- F1. unfold set_drv; destruct (m =? 0); reflexivity. }
-  destruct W3 as [W3b W3a].
-  cbn [w_tasks w_fes]. rewrite W3b, W3a.
-  split; [exact (Hres w2 eq_refl (eq_trans F1 W1a) wk' _ eq_refl Hx)|]. split.
-  - intros Hne. destruct spawn as [|k sp]; [contradiction Hne; reflexivity|].
-    assert (Hin : In k q0) by (unfold q0; rewrite dedup_in; apply in_or_app; right; left; reflexivity).
-    destruct q0; [contradiction|cbn [length]; lia].
-  - intros Hfire Hq.
-    assert (Hq0def : dedup (flat_map (owner_of (w_owner w)) (flat_map snd wk) ++ spawn) = []).
-    { change (q0 = []). destruct q0; [reflexivity|discriminate]. }
-    assert (Eq0 : q0 = []) by exact Hq0def.
-    clearbody q0. subst q0. clear Hq.
-    (* nothing was woken, nothing spawned: every popped slot is empty *)
-    assert (Hwkempty : forall d es, In (d, es) wk -> es = []).
-    { intros d es Hin. destruct es as [|id es]; [reflexivity|exfalso].
-      destruct (Hwoken d (id :: es) id Hin (or_introl eq_refl)) as (k & tkx & ax & sx & _ & _ & _ & _ & _ & _ & _ & _ & Hwk).
-      assert (Hk : In k []).
-      { rewrite <- Hq0def. rewrite dedup_in. apply in_or_app. left. apply in_flat_map. exists id. split.
-        - apply in_flat_map. exists (d, id :: es). split; [exact Hin|left; reflexivity].
-        - unfold owner_of. rewrite Hwk. left; reflexivity. }
-      contradiction. }
-    destruct (q_bump_spec _ _ _ _ Eb) as (Hp & Hwkle & _).
-    unfold w2 in Ed. rewrite run_queue_nil in Ed. unfold w1 in Ed. rewrite drv_of_set_same in Ed.
-    assert (Hs0 : sorted (pending dr0)) by (rewrite Hp0; exact (mid_sorted _ _ Hmidl)).
-    (* a live slot of the old queue is still there *)
-    assert (Hlive_rest : forall d es, In (d, es) (pending (drv_of w m)) -> es <> [] -> In (d, es) rest).
-    { intros d es Hin Hne. rewrite <- Hp0, Hp in Hin. apply in_app_or in Hin. destruct Hin as [Hin|Hin]; [|exact Hin].
-      rewrite (Hwkempty d es Hin) in Hne. contradiction. }
-    assert (Hrest_in : forall s0, In s0 rest -> In s0 (pending (drv_of w m))).
-    { intros s0 Hin. rewrite <- Hp0, Hp. apply in_or_app. right; exact Hin. }
-    (* next_wakeup is not due: the slot it was scheduled for is live, hence not popped *)
-    assert (Hnwkeep : next_wakeup d1 = next_wakeup (drv_of w m)).
-    { unfold d1. cbn [next_wakeup]. rewrite Hn0. destruct (next_wakeup (drv_of w m)) as [x|] eqn:Ex; [|reflexivity].
-      pose proof (Hnl x Ex) as Hne. pose proof (Hlive_rest _ _ (ents_at_in _ _ Hne) Hne) as Hin.
-      pose proof (q_bump_rest_future t (pending dr0) wk rest Hs0 Eb _ Hin) as Hlt. cbn [fst] in Hlt.
-      replace (x <=? t) with false by lia. reflexivity. }
-    assert (Hwk' : wk' = None).
-    { revert Ed. unfold deactivate, q_next. rewrite Hnwkeep. cbn [d1 pending].
-      destruct (prune rest) as [|[d0 es0] r] eqn:Epr; cbn [front_time]; [intros H; injection H as _ <-; reflexivity|].
-      pose proof (prune_head_live _ _ _ _ Epr) as Hne0.
-      assert (Hin0 : In (d0, es0) (pending (drv_of w m))) by (apply Hrest_in, prune_in; rewrite Epr; left; reflexivity).
-      assert (Hfin0 : d0 < TMAX).
-      { destruct es0 as [|id0 es0']; [contradiction Hne0; reflexivity|].
-        assert (Hid0 : In id0 (ents_at d0 (pending (drv_of w m)))) by (rewrite (in_ents_at _ _ _ (mid_sorted _ _ Hmidl) Hin0); left; reflexivity).
-        destruct (Htask0 d0 id0 Hid0) as (k0 & tk0 & s0 & Hk0 & Hs0' & Hm0 & _ & E0).
-        pose proof (pe_base _ _ _ _ _ _ _ HP) as Hbase.
-        destruct (Forall2_nth _ _ _ _ _ (b_states _ _ _ _ Hbase) Hk0) as (tki & Hki & Hsti).
-        assert (Hii : init_ok tki).
-        { pose proof (b_init _ _ _ _ Hbase) as Hall. rewrite Forall_forall in Hall. apply Hall. eapply nth_error_In; exact Hki. }
-        destruct (held_blocked _ _ _ Hsti Hii Hs0') as (a0 & Hc0 & Hkind0 & Hsa0 & _ & _ & Hheld0).
-        destruct (aw_wake_held a0 _ Hkind0) as [(smin & Hsmin & Emin) Hge].
-        pose proof (base_blocked_fin _ _ _ _ _ _ _ Hbase Hk0 Hc0) as Hfinw.
-        pose proof (Hge s0 Hsa0) as Hwd. rewrite E0 in Hwd.
-        (* the Sleep that completes the awaited future is registered, live, not popped: the front is not after it *)
-        assert (Hreg : In (sid smin) (ents_at (aw_wake a0 (t_iv tk0)) (pending (drv_of w m)))).
-        { rewrite <- Emin. apply (Hentry0 k0 tk0 smin Hk0); [rewrite Hheld0; exact Hsmin|exact Hm0|left; intros []]. }
-        assert (Hnew : ents_at (aw_wake a0 (t_iv tk0)) (pending (drv_of w m)) <> []) by (intros E; rewrite E in Hreg; contradiction).
-        pose proof (prune_keeps_live _ _ _ (Hlive_rest _ _ (ents_at_in _ _ Hnew) Hnew) Hnew) as Hinp.
-        rewrite Epr in Hinp. destruct Hinp as [Hinp|Hinp]; [injection Hinp as -> _; exact Hfinw|].
-        assert (Hsp : sorted (prune rest)).
-        { apply prune_sorted. rewrite Hp in Hs0. exact (sorted_app_r _ _ Hs0). }
-        rewrite Epr in Hsp. pose proof (sorted_head_lt _ _ _ Hsp Hinp) as Hlt. cbn [fst] in Hlt. lia. }
-      destruct (Hcov d0 es0 Hin0 Hne0 Hfin0) as (x & Hx' & _ & _ & Hxd).
-      rewrite Hx'. unfold earlier. replace (d0 <? x) with false by lia.
-      intros H; injection H as _ <-; reflexivity. }
-    subst wk'. split; [reflexivity|].
-    unfold w2. rewrite run_queue_nil, W1c. reflexivity.
+  assert (W3 : w_tasks (set_drv w2 m dr3) = w_tasks w2 /\ w_fes (set_drv w2 m dr3) = w_fes w /\ drv_of (set_drv w2 m dr3) m = dr3 /\
+               forall m', (m' =? 0) <> (m =? 0) -> drv_of (set_drv w2 m dr3) m' = drv_of w m').
+  { split; [unfold set_drv; destruct (m =? 0); reflexivity|]. split; [rewrite <- W1a, <- F1; unfold set_drv; destruct (m =? 0); reflexivity|].
+    split; [apply drv_of_set_same|]. intros m' Hne. rewrite (drv_of_set_other _ _ _ _ Hne), (F3 m' Hne). exact (W1d m' Hne). }
+  destruct W3 as (W3b & W3a & W3f & W3g).
+  rewrite !drv_of_world. cbn [w_tasks w_fes].
+  change (if m =? 0 then w_d0 (set_drv w2 m dr3) else w_d1 (set_drv w2 m dr3)) with (drv_of (set_drv w2 m dr3) m).
+  rewrite W3b, W3a, W3f.
+  destruct (Hres w2 eq_refl (eq_trans F1 W1a) wk' _ eq_refl Hx) as [Hr1 Hr2].
+  split; [lia|]. split.
+  2:{ intros m' Hne. rewrite drv_of_world. change (if m' =? 0 then w_d0 (set_drv w2 m dr3) else w_d1 (set_drv w2 m dr3)) with (drv_of (set_drv w2 m dr3) m').
+      exact (W3g m' Hne). }
+  intros Hcase. pose proof (stale_le dr3) as Hst3.
+  destruct q0 as [|k0 q0'] eqn:Eq0; [|cbn [length] in Hr1; lia].
+  (* nothing was woken, nothing spawned: the event is a wake-up, and every popped slot is empty *)
+  assert (Hq0def : dedup (flat_map (owner_of (w_owner w)) (flat_map snd wk) ++ spawn) = []) by exact Eq0.
+  assert (Hfire : fire = true).
+  { destruct Hcase as [H|H]; [exact H|]. exfalso. destruct spawn as [|k sp]; [contradiction H; reflexivity|].
+    assert (Hin : In k []) by (rewrite <- Hq0def; rewrite dedup_in; apply in_or_app; right; left; reflexivity). contradiction. }
+  assert (Hwkempty : forall d es, In (d, es) wk -> es = []).
+  { intros d es Hin. destruct es as [|id es]; [reflexivity|exfalso].
+    destruct (Hwoken d (id :: es) id Hin (or_introl eq_refl)) as (k & tkx & ax & sx & _ & _ & _ & _ & _ & _ & _ & _ & Hwk).
+    assert (Hk : In k []).
+    { rewrite <- Hq0def. rewrite dedup_in. apply in_or_app. left. apply in_flat_map. exists id. split.
+      - apply in_flat_map. exists (d, id :: es). split; [exact Hin|left; reflexivity].
+      - unfold owner_of. rewrite Hwk. left; reflexivity. }
+    contradiction. }
+  destruct (q_bump_spec _ _ _ _ Eb) as (Hp & Hwkle & _).
+  unfold w2 in Ed. rewrite run_queue_nil in Ed. unfold w1 in Ed. rewrite drv_of_set_same in Ed.
+  assert (Hw2 : work (w_tasks w2) = work (w_tasks w)) by (unfold w2; rewrite run_queue_nil, W1c; reflexivity).
+  assert (Hs0 : sorted (pending dr0)) by (rewrite Hp0; exact (mid_sorted _ _ Hmidl)).
+  assert (Hsrest : sorted rest) by (rewrite Hp in Hs0; exact (sorted_app_r _ _ Hs0)).
+  (* a live slot of the old queue is still there *)
+  assert (Hlive_rest : forall d es, In (d, es) (pending (drv_of w m)) -> es <> [] -> In (d, es) rest).
+  { intros d es Hin Hne. rewrite <- Hp0, Hp in Hin. apply in_app_or in Hin. destruct Hin as [Hin|Hin]; [|exact Hin].
+    rewrite (Hwkempty d es Hin) in Hne. contradiction. }
+  assert (Hrest_in : forall s0, In s0 rest -> In s0 (pending (drv_of w m))).
+  { intros s0 Hin. rewrite <- Hp0, Hp. apply in_or_app. right; exact Hin. }
+  (* the front live slot of what is left has a finite deadline: it is the wake-up slot of a blocked task *)
+  assert (Hfin0 : forall d0 es0 r, prune rest = (d0, es0) :: r -> d0 < TMAX).
+  { intros d0 es0 r Epr. pose proof (prune_head_live _ _ _ _ Epr) as Hne0.
+    assert (Hin0 : In (d0, es0) (pending (drv_of w m))) by (apply Hrest_in, prune_in; rewrite Epr; left; reflexivity).
+    destruct es0 as [|id0 es0']; [contradiction Hne0; reflexivity|].
+    assert (Hid0 : In id0 (ents_at d0 (pending (drv_of w m)))) by (rewrite (in_ents_at _ _ _ (mid_sorted _ _ Hmidl) Hin0); left; reflexivity).
+    destruct (Htask0 d0 id0 Hid0) as (k0 & tk0 & s0 & Hk0 & Hs0' & Hm0 & _ & E0).
+    pose proof (pe_base _ _ _ _ _ _ _ _ _ HP) as Hbase.
+    destruct (Forall2_nth _ _ _ _ _ (b_states _ _ _ _ _ _ Hbase) Hk0) as (tki & Hki & Hsti).
+    assert (Hii : init_ok2 A0 tki).
+    { pose proof (b_init _ _ _ _ _ _ Hbase) as Hall. rewrite Forall_forall in Hall. apply Hall. eapply nth_error_In; exact Hki. }
+    destruct (held_blocked _ _ _ _ _ Hsti Hii Hs0') as (a0 & Hc0 & Hkind0 & Hsa0 & _ & _ & Hheld0).
+    destruct (aw_wake_held a0 _ Hkind0) as [(smin & Hsmin & Emin) Hge].
+    pose proof (base_blocked_fin _ _ _ _ _ _ _ _ _ Hbase Hk0 Hc0) as Hfinw.
+    pose proof (Hge s0 Hsa0) as Hwd. rewrite E0 in Hwd.
+    assert (Hreg : In (sid smin) (ents_at (aw_wake a0 (t_iv tk0)) (pending (drv_of w m)))).
+    { rewrite <- Emin. apply (Hentry0 k0 tk0 smin Hk0); [rewrite Hheld0; exact Hsmin|exact Hm0|left; intros []]. }
+    assert (Hnew : ents_at (aw_wake a0 (t_iv tk0)) (pending (drv_of w m)) <> []) by (intros E; rewrite E in Hreg; contradiction).
+    pose proof (prune_keeps_live _ _ _ (Hlive_rest _ _ (ents_at_in _ _ Hnew) Hnew) Hnew) as Hinp.
+    rewrite Epr in Hinp. destruct Hinp as [Hinp|Hinp]; [injection Hinp as -> _; exact Hfinw|].
+    assert (Hsp : sorted (prune rest)) by (apply prune_sorted; exact Hsrest).
+    rewrite Epr in Hsp. pose proof (sorted_head_lt _ _ _ Hsp Hinp) as Hlt. cbn [fst] in Hlt. lia. }
+  (* the slot at x in what is left holds what the slot at x held before, for x > t *)
+  assert (Hsame : forall x, t < x -> ents_at x rest = ents_at x (pending (drv_of w m))).
+  { intros x Hlt. destruct (ents_at x (pending (drv_of w m))) as [|e0 l0] eqn:Ex.
+    - destruct (ents_at x rest) as [|e1 l1] eqn:Er; [reflexivity|exfalso].
+      assert (Hne : ents_at x rest <> []) by (rewrite Er; discriminate).
+      pose proof (Hrest_in _ (ents_at_in _ _ Hne)) as Hin. rewrite (in_ents_at _ _ _ (mid_sorted _ _ Hmidl) Hin) in Ex. congruence.
+    - assert (Hne : ents_at x (pending (drv_of w m)) <> []) by (rewrite Ex; discriminate).
+      pose proof (Hlive_rest _ _ (ents_at_in _ _ Hne) Hne) as Hin. rewrite Ex in Hin. exact (in_ents_at _ _ _ Hsrest Hin). }
+  assert (Hkey : ((match wk' with Some _ => 1 | None => 0 end) + stale dr3 <= stale (drv_of w m))%nat).
+  { revert Ed. unfold deactivate, q_next. cbn [d1 pending next_wakeup]. rewrite Hn0.
+    destruct (next_wakeup (drv_of w m)) as [x|] eqn:Enw.
+    - destruct (x <=? t) eqn:Ext.
+      + (* the wake-up that fired was next_wakeup: its slot was empty -- a stale wake-up *)
+        assert (Hst0 : stale (drv_of w m) = 1%nat).
+        { unfold stale. rewrite Enw. destruct (ents_at x (pending (drv_of w m))) as [|e0 l0] eqn:Ex; [reflexivity|exfalso].
+          assert (Hne : ents_at x (pending (drv_of w m)) <> []) by (rewrite Ex; discriminate).
+          pose proof (ents_at_in _ _ Hne) as Hin. rewrite <- Hp0 in Hin.
+          pose proof (Hdue _ _ Hs0 Hin ltac:(lia)) as Hwk. pose proof (Hwkempty _ _ Hwk) as He0. rewrite Hp0 in He0. exact (Hne He0). }
+        rewrite Hst0.
+        destruct (prune rest) as [|[d0 es0] r] eqn:Epr; cbn [front_time].
+        * intros H. injection H as <- <-. unfold stale. cbn [next_wakeup]. lia.
+        * unfold earlier. destruct (d0 <? TMAX) eqn:Ef.
+          -- intros H. injection H as <- <-. unfold stale. cbn [next_wakeup pending ents_at]. rewrite N.eqb_refl.
+             pose proof (prune_head_live _ _ _ _ Epr) as Hne0. destruct es0; [contradiction Hne0; reflexivity|]. lia.
+          -- intros H. injection H as <- <-. unfold stale. cbn [next_wakeup]. lia.
+      + (* next_wakeup lies ahead: nothing is scheduled, and its slot is as live as before *)
+        assert (Hxx : ents_at x (prune rest) = [] <-> ents_at x (pending (drv_of w m)) = []).
+        { rewrite <- (Hsame x ltac:(lia)). split.
+          - intros E. destruct (ents_at x rest) as [|e1 l1] eqn:Er; [reflexivity|].
+            exfalso. assert (Hne : ents_at x rest <> []) by (rewrite Er; discriminate). rewrite (ents_at_prune_keep _ _ Hsrest Hne), Er in E. discriminate.
+          - intros E. destruct (ents_at x (prune rest)) as [|e1 l1] eqn:Er; [reflexivity|].
+            assert (Hin1 : In e1 (ents_at x rest)) by (apply (ents_at_prune_in _ _ _ Hsrest); rewrite Er; left; reflexivity). rewrite E in Hin1. contradiction. }
+        assert (Hstx : stale {| pending := prune rest; next_wakeup := Some x; scheduled := scheduled dr0 |} = stale (drv_of w m)).
+        { unfold stale. cbn [next_wakeup pending]. rewrite Enw.
+          destruct (ents_at x (prune rest)) as [|e1 l1]; destruct (ents_at x (pending (drv_of w m))) as [|e2 l2]; try reflexivity.
+          - discriminate (proj1 Hxx eq_refl).
+          - discriminate (proj2 Hxx eq_refl). }
+        destruct (prune rest) as [|[d0 es0] r] eqn:Epr; cbn [front_time].
+        * intros H. injection H as <- <-. rewrite Hstx. lia.
+        * assert (Hin0 : In (d0, es0) (pending (drv_of w m))) by (apply Hrest_in, prune_in; rewrite Epr; left; reflexivity).
+          destruct (Hcov d0 es0 Hin0 (prune_head_live _ _ _ _ Epr) (Hfin0 _ _ _ eq_refl)) as (x' & Hx' & _ & _ & Hxd).
+          rewrite ?Enw in Hx'. injection Hx' as <-. unfold earlier. replace (d0 <? x) with false by lia.
+          intros H. injection H as <- <-. rewrite Hstx. lia.
+    - (* no wake-up was outstanding: no finite timer is live, nothing is scheduled *)
+      destruct (prune rest) as [|[d0 es0] r] eqn:Epr; cbn [front_time].
+      + intros H. injection H as <- <-. unfold stale. cbn [next_wakeup]. lia.
+      + assert (Hin0 : In (d0, es0) (pending (drv_of w m))) by (apply Hrest_in, prune_in; rewrite Epr; left; reflexivity).
+        destruct (Hcov d0 es0 Hin0 (prune_head_live _ _ _ _ Epr) (Hfin0 _ _ _ eq_refl)) as (x' & Hx' & _). rewrite ?Enw in Hx'. discriminate. }
+  rewrite Hr2, Hw2. lia.
 Qed.
